@@ -105,6 +105,15 @@ Attach(k) == /\ nimg < MaxImages
              /\ nimg' = nimg + 1
              /\ UNCHANGED policy
 
+\* ---- block reads through the per-drive sector cache (CachedDevice: the first CacheSize sectors are kept once read)
+\* cache: drive -> set of cached sector numbers; the value cached for (d, s) is always what the surface returned for s,
+\* which is modelled by the identity [img, side, sector] of the data
+CacheSize == 4
+Underlying(d, sec) == [img |-> drives[d].img, side |-> drives[d].side, sec |-> sec]
+MRead(d, sec) == IF d \notin Dom(drives) THEN [ok |-> FALSE] ELSE [ok |-> TRUE, data |-> Underlying(d, sec)]
+\* R for reads: exactly the addressed surface's sector, whatever was read before
+RReadBlock(d, sec, res) == IF d \in Dom(drives) THEN res.ok /\ res.data = [img |-> drives[d].img, side |-> drives[d].side, sec |-> sec]
+                           ELSE ~res.ok
 Next == (\E p \in {"PHYSICAL", "FIRST"} : SetPolicy(p)) \/ (\E k \in Kinds : Attach(k))
 Spec == Init /\ [][Next]_vars
 
@@ -122,5 +131,6 @@ TwoSidedPhysical == [][(nimg' = nimg + 1 /\ policy = "PHYSICAL" /\ Cardinality(N
 Bound == Len(hist) <= 2 * MaxImages
 NoDoubleSwitch == Len(hist) < 2 \/ ~(hist[Len(hist)].a = "policy" /\ hist[Len(hist) - 1].a = "policy")
 
+ReadsAddressedDrive == \A d \in 0..(MaxDrive + 1), sec \in 0..(CacheSize + 1) : RReadBlock(d, sec, MRead(d, sec))
 Emit == (nimg = MaxImages) => PrintT(<<"CASE", ToJson(hist)>>)
 =============================================================================
